@@ -1,9 +1,10 @@
 """Abstract interpretation of small integer MIR bodies in the domain of GF(2)-affine bit vectors.
 
-A value is either a concrete integer / bool, a tuple of values, a Slice (list of values, for `&[u64]` inputs), a
-Struct (dict of fields, for closure environments) or a BV: 64 result bits, bit j = XOR of a set of *input bits*
-(numbered globally: input word k contributes bits 64k .. 64k+63) xor a constant bit.  Shifts by concrete amounts,
-AND with concrete masks, XOR, and OR of bit-disjoint values are exact in this domain, so one abstract run covers all
+A value is a concrete integer / bool, a tuple, an Opt (Option), a Slice (list of values; arrays and `&[u64]`), a
+Struct (fields by index; closure environments, Range, BigInt), an Iter (slice iterators), a Ref (pointer to a local, a
+heap object, or an element / field of one) or a BV: 64 result bits, bit j = XOR of a set of *input bits* (numbered
+globally: input word k contributes bits 64k .. 64k+63) xor a constant bit.  Shifts by concrete amounts, AND with
+concrete masks, XOR, and OR of bit-disjoint values are exact in this domain, so one abstract run covers all
 2^(64*words) inputs.  Anything else stops the run with a reason (the caller reports 'undecided', never 'ok').
 """
 from .facts import place_parts, op_place
@@ -40,9 +41,49 @@ class Struct:
         self.fields = dict(fields)
 
 
+class Opt:
+    def __init__(self, v=None, some=False):
+        self.v, self.some = v, some
+
+
+class Iter:
+    """iterator over references to the elements of a slice (forward or reversed)"""
+    def __init__(self, slice_, order):
+        self.slice, self.order = slice_, list(order)
+
+
 class Ref:
-    def __init__(self, target):
-        self.target = target
+    """pointer: to a heap object (Slice / Struct: key None), to one of its elements / fields (key), or to a local of
+    the running frame (obj = ('local', frame-dict), key = local index)"""
+    def __init__(self, obj, key=None):
+        self.obj, self.key = obj, key
+
+    @property
+    def target(self):
+        return self.get()
+
+    def get(self):
+        if self.key is None:
+            return self.obj
+        if isinstance(self.obj, Slice):
+            return self.obj.items[self.key]
+        if isinstance(self.obj, Struct):
+            return self.obj.fields[self.key]
+        if isinstance(self.obj, dict):
+            return self.obj[self.key]
+        raise Stop("dangling reference")
+
+    def set(self, v):
+        if self.key is None:
+            raise Stop("store through a whole-object pointer")
+        if isinstance(self.obj, Slice):
+            self.obj.items[self.key] = v
+        elif isinstance(self.obj, Struct):
+            self.obj.fields[self.key] = v
+        elif isinstance(self.obj, dict):
+            self.obj[self.key] = v
+        else:
+            raise Stop("store through unknown pointer")
 
 
 class Stop(Exception):
@@ -116,61 +157,143 @@ def _bin(op, x, y):
         v, m = (x, y) if isinstance(x, BV) else (y, x)
         if isinstance(m, int) and m == 0:
             return v
-        raise Stop("bitwise OR with a non-zero constant")
+        if isinstance(m, int):
+            # OR with a constant is exact where the symbolic bits are zero
+            rows = list(v.rows)
+            for j in range(W):
+                if (m >> j) & 1 and not v.is_zero_bit(j):
+                    raise Stop("bitwise OR of a constant onto symbolic bits")
+            return BV(rows, v.const | m)
+        raise Stop("bitwise OR with unknown")
+    if base in ("Ne", "Eq") and (isinstance(x, BV) != isinstance(y, BV)):
+        v, m = (x, y) if isinstance(x, BV) else (y, x)
+        if m == 0 and all(v.is_zero_bit(j) for j in range(1, W)):
+            # a value that is 0 or 1: `v != 0` is its low bit (kept as a symbolic bit), `v == 0` its complement
+            return v if base == "Ne" else BV(list(v.rows), v.const ^ 1)
     raise Stop("operator %s on symbolic operands" % op)
 
 
-def run(fn, args, stop_before=None, max_steps=400, call_model=None, stop_after=None):
-    """Run fn's MIR from bb0.  args: {local: value}.  Returns (locals dict, end) where end is 'return' or ('stop', bb)
-    when a block in stop_before is reached.  Raises Stop(reason) when the domain cannot represent a step or an
-    assertion (overflow / bounds check) fails."""
+def run(fn, args, stop_before=None, max_steps=4000, call_model=None, stop_after=None, params=None):
+    """Run fn's MIR from bb0.  args: {local: value}.  Returns (locals dict, end) where end is 'return' or ('stop', bb).
+    Raises Stop(reason) when the domain cannot represent a step or an assertion (overflow / bounds check) fails."""
     vals = dict(args)
+    params = params or {}
 
-    def project(v, projs):
+    def step(v, p):
+        """apply one projection to a value (read)"""
+        if p == "*":
+            return v.get() if isinstance(v, Ref) else v
+        if isinstance(p, (list, tuple)):
+            if p[0] == "f":
+                if isinstance(v, tuple):
+                    return v[int(p[1])]
+                if isinstance(v, Struct):
+                    if int(p[1]) not in v.fields:
+                        raise Stop("unknown field %s" % p[1])
+                    return v.fields[int(p[1])]
+                if isinstance(v, Opt):
+                    return v.v
+                raise Stop("field of non-aggregate")
+            if p[0] == "dc":
+                return v
+            if p[0] == "i":
+                idx = vals.get(p[1])
+                if not isinstance(v, Slice) or not isinstance(idx, int):
+                    raise Stop("index into non-slice / symbolic index")
+                if idx >= len(v.items):
+                    raise Stop("index %d out of bounds (len %d)" % (idx, len(v.items)))
+                return v.items[idx]
+            if p[0] == "ci":
+                if not isinstance(v, Slice):
+                    raise Stop("index into non-slice")
+                return v.items[-p[1] if p[2] else p[1]]
+        raise Stop("projection %s" % (p,))
+
+    def locate(place):
+        """place -> Ref to its storage"""
+        l, projs = place_parts(place)
+        cur = Ref(vals, l)
         for p in projs:
             if p == "*":
-                if isinstance(v, Ref):
-                    v = v.target
+                v = cur.get()
+                if not isinstance(v, Ref):
+                    raise Stop("deref of non-pointer")
+                cur = v
                 continue
+            v = cur.get()
             if isinstance(p, (list, tuple)):
                 if p[0] == "f":
+                    if isinstance(v, Struct):
+                        cur = Ref(v, int(p[1]))
+                        continue
                     if isinstance(v, tuple):
-                        v = v[int(p[1])]
-                    elif isinstance(v, Struct):
-                        if int(p[1]) not in v.fields:
-                            raise Stop("unknown field %s" % p[1])
-                        v = v.fields[int(p[1])]
-                    else:
-                        raise Stop("field of non-aggregate")
-                elif p[0] == "i":
+                        raise Stop("store into tuple field")
+                    if isinstance(v, Opt):
+                        raise Stop("store into option payload")
+                if p[0] == "i":
                     idx = vals.get(p[1])
-                    if not isinstance(v, Slice) or not isinstance(idx, int):
-                        raise Stop("index into non-slice / symbolic index")
-                    if idx >= len(v.items):
-                        raise Stop("index %d out of bounds (len %d)" % (idx, len(v.items)))
-                    v = v.items[idx]
-                elif p[0] == "ci":
-                    if not isinstance(v, Slice):
-                        raise Stop("index into non-slice")
-                    v = v.items[-p[1] if p[2] else p[1]]
-                else:
-                    raise Stop("projection %s" % (p,))
-            else:
-                raise Stop("projection %s" % (p,))
+                    if isinstance(v, Slice) and isinstance(idx, int):
+                        if idx >= len(v.items):
+                            raise Stop("index %d out of bounds (len %d)" % (idx, len(v.items)))
+                        cur = Ref(v, idx)
+                        continue
+                if p[0] == "dc":
+                    continue
+            raise Stop("place projection %s" % (p,))
+        return cur
+
+    def read(place):
+        l, projs = place_parts(place)
+        if l not in vals:
+            raise Stop("read of undefined local _%d" % l)
+        v = vals[l]
+        for p in projs:
+            v = step(v, p)
         return v
 
     def operand(o):
         if "k" in o:
-            v = o["k"].get("v")
-            if isinstance(v, bool):
+            k = o["k"]
+            v = k.get("v")
+            if isinstance(v, (bool, int)):
                 return v
-            if isinstance(v, int):
-                return v
+            if "param" in k and k["param"] in params:
+                return params[k["param"]]
+            if k.get("zst"):
+                return ()
             raise Stop("non-integer constant")
-        l, projs = place_parts(op_place(o))
-        if l not in vals:
-            raise Stop("read of undefined local _%d" % l)
-        return project(vals[l], projs)
+        return read(op_place(o))
+
+    def default_call(name, argv, t):
+        a0 = argv[0] if argv else None
+        d0 = a0.get() if isinstance(a0, Ref) else a0
+        if name == "len" and isinstance(d0, Slice):
+            return len(d0.items)
+        if name == "into_iter" and isinstance(a0, (Struct, Iter)):
+            return a0
+        if name in ("iter_mut", "iter") and isinstance(d0, Slice):
+            return Iter(d0, range(len(d0.items)))
+        if name == "rev" and isinstance(a0, Iter):
+            return Iter(a0.slice, reversed(a0.order))
+        if name in ("next",) and isinstance(d0, Iter):
+            if d0.order:
+                i = d0.order.pop(0)
+                return Opt(Ref(d0.slice, i), True)
+            return Opt()
+        if name == "next" and isinstance(d0, Struct) and set(d0.fields) == {0, 1}:
+            s_, e_ = d0.fields[0], d0.fields[1]
+            if not (isinstance(s_, int) and isinstance(e_, int)):
+                raise Stop("symbolic range")
+            if s_ < e_:
+                d0.fields[0] = s_ + 1
+                return Opt(s_, True)
+            return Opt()
+        if name == "swap" and len(argv) == 2 and isinstance(argv[0], Ref) and isinstance(argv[1], Ref):
+            x, y = argv[0].get(), argv[1].get()
+            argv[0].set(y)
+            argv[1].set(x)
+            return ()
+        return NotImplemented
     bb = 0
     for _ in range(max_steps):
         if stop_before is not None and bb in stop_before:
@@ -181,46 +304,82 @@ def run(fn, args, stop_before=None, max_steps=400, call_model=None, stop_after=N
                 return vals, ("stop", bb)
             if "d" not in s:
                 continue
-            l, projs = place_parts(s["d"])
-            if projs:
-                raise Stop("store through projection")
             r = s["r"]
             k = r["k"]
             if k in ("use", "cast"):
                 v = operand(r["o"])
-                if k == "cast" and isinstance(v, bool):
-                    v = int(v)
-                vals[l] = v
+                if k == "cast":
+                    if isinstance(v, bool):
+                        v = int(v)
+                    ty = r.get("ty")
+                    bits = {"u8": 8, "u16": 16, "u32": 32}.get(ty)
+                    if bits and isinstance(v, int):
+                        v &= (1 << bits) - 1
             elif k == "bin":
-                vals[l] = _bin(r["op"], operand(r["a"]), operand(r["b"]))
+                v = _bin(r["op"], operand(r["a"]), operand(r["b"]))
             elif k == "un":
                 v = operand(r["o"])
                 if r["op"] == "Not":
                     if isinstance(v, bool):
-                        vals[l] = not v
+                        v = not v
                     elif isinstance(v, int):
-                        vals[l] = (~v) & MASK
+                        v = (~v) & MASK
                     elif isinstance(v, BV):
-                        vals[l] = BV(list(v.rows), v.const ^ MASK)
+                        v = BV(list(v.rows), v.const ^ MASK)
                     else:
                         raise Stop("not of aggregate")
                 elif r["op"] == "PtrMetadata":
-                    t = v.target if isinstance(v, Ref) else v
-                    if not isinstance(t, Slice):
+                    t_ = v.get() if isinstance(v, Ref) else v
+                    if not isinstance(t_, Slice):
                         raise Stop("metadata of non-slice")
-                    vals[l] = len(t.items)
+                    v = len(t_.items)
                 else:
                     raise Stop("unary %s" % r["op"])
             elif k in ("ref", "raw", "addr"):
                 pl, pp = place_parts(r["p"])
                 if pl not in vals:
                     raise Stop("reference to undefined local")
-                tgt = project(vals[pl], [p for p in pp])
-                vals[l] = Ref(tgt)
+                # &*p is p
+                if pp and pp[-1] != "*" or not pp:
+                    v = locate(r["p"])
+                    # a pointer to a heap object itself (whole slice / struct) is represented with key None
+                    tv = v.get()
+                    if isinstance(tv, (Slice, Struct, Iter)):
+                        v = Ref(tv)
+                else:
+                    inner = read([pl, pp[:-1]]) if pp[:-1] else vals[pl]
+                    v = inner if isinstance(inner, Ref) else Ref(inner)
             elif k == "agg" and r.get("ak") == "tuple":
-                vals[l] = tuple(operand(o) for o in r["ops"])
+                v = tuple(operand(o) for o in r["ops"])
+            elif k == "agg" and r.get("ak") == "adt":
+                ops = [operand(o) for o in r["ops"]]
+                if r.get("adt") == "core::option::Option":
+                    v = Opt(ops[0], True) if r.get("variant") == "Some" else Opt()
+                else:
+                    v = Struct({i: x for i, x in enumerate(ops)})
+            elif k == "agg" and r.get("ak") == "array":
+                v = Slice([operand(o) for o in r["ops"]])
+            elif k == "repeat":
+                x = operand(r["o"])
+                n = r["n"]
+                try:
+                    cnt = int(str(n).split("_")[0])
+                except ValueError:
+                    cnt = params.get(str(n))
+                if not isinstance(cnt, int):
+                    raise Stop("array length %s unknown" % n)
+                v = Slice([x] * cnt)
+            elif k == "discr":
+                dv = read(r["p"])
+                if isinstance(dv, Ref):
+                    dv = dv.get()
+                if isinstance(dv, Opt):
+                    v = 1 if dv.some else 0
+                else:
+                    raise Stop("discriminant of non-option")
             else:
                 raise Stop("statement kind %s" % k)
+            locate(s["d"]).set(v)
         t = blk["t"]
         tk = t["k"]
         if tk == "goto":
@@ -247,23 +406,17 @@ def run(fn, args, stop_before=None, max_steps=400, call_model=None, stop_after=N
         elif tk == "call":
             name = t["f"].get("name")
             argv = [operand(a) for a in t["args"]]
-            if call_model is not None:
-                out = call_model(name, argv, t)
-            else:
-                out = NotImplemented
+            out = call_model(name, argv, t) if call_model is not None else NotImplemented
             if out is NotImplemented:
-                if name == "len" and argv and isinstance(argv[0].target if isinstance(argv[0], Ref) else argv[0], Slice):
-                    a0 = argv[0].target if isinstance(argv[0], Ref) else argv[0]
-                    out = len(a0.items)
-                else:
-                    raise Stop("call to %s" % name)
-            dl, dp = place_parts(t["d"])
-            if dp:
-                raise Stop("call result stored through projection")
-            vals[dl] = out
+                out = default_call(name, argv, t)
+            if out is NotImplemented:
+                raise Stop("call to %s" % name)
+            locate(t["d"]).set(out)
             if t.get("t") is None:
                 raise Stop("diverging call")
             bb = t["t"]
+        elif tk == "unreachable":
+            raise Stop("unreachable reached")
         else:
             raise Stop("terminator %s" % tk)
     raise Stop("too many steps")
